@@ -46,7 +46,7 @@ def valid_sequence(rng, role, nmsgs, max_frag=4):
 VIOLATIONS = ['rsv1', 'rsv2', 'rsv3', 'reserved-data', 'reserved-ctl', 'frag-ping', 'frag-close', 'big-ping', 'big-close', 'big-pong',
               'orphan-cont', 'orphan-cont-fin', 'nested-text', 'nested-bin', 'wrong-mask', 'close-1byte', 'close-badutf8', 'bad-text',
               'bad-text-frag', 'trunc-text-final', 'wrong-mask-empty-ping', 'wrong-mask-empty-text', 'wrong-mask-empty-close',
-              'wrong-mask-empty-final-cont', 'wrong-mask-pong']
+              'wrong-mask-empty-final-cont', 'wrong-mask-pong', 'frag-pong', 'frag-pong-big', 'frag-close-payload']
 
 def violation_frames(rng, role, v):
     pf = lambda op, p, **kw: peer_frame(role, op, p, **kw)
@@ -57,6 +57,9 @@ def violation_frames(rng, role, v):
     if v == 'reserved-ctl': return [pf(rng.choice([11, 12, 13, 14, 15]), b'')]
     if v == 'frag-ping': return [pf(9, b'x', fin=False)]
     if v == 'frag-close': return [pf(8, b'', fin=False)]
+    if v == 'frag-pong': return [pf(10, b'z', fin=False)]
+    if v == 'frag-pong-big': return [pf(10, b'z' * 126, fin=False)]
+    if v == 'frag-close-payload': return [pf(8, close_payload(1000, b'x'), fin=False)]
     if v == 'big-ping': return [pf(9, b'p' * 126)]
     if v == 'big-pong': return [pf(10, b'p' * 200)]
     if v == 'big-close': return [pf(8, close_payload(1000, b'r' * 124))]
@@ -82,7 +85,7 @@ def violation_frames(rng, role, v):
 def stream_case(rng, quick=True):
     """returns dict(role, au, frames(list of bytes), violation or None)"""
     role = rng.choice('sc')
-    au = role == 's' and rng.random() < 0.2
+    au = rng.random() < 0.2          # independent of the role: a client with accept_unmasked_frames must still reject masked frames
     n = rng.randint(0, 5)
     frames = valid_sequence(rng, role, n)
     v = None
@@ -124,3 +127,16 @@ def reader_case(cid, role, chunks, nreads, au=False, mms=None, mfs=None, rbs=409
     if end:
         rds.append(end)
     return ws.scase_line(cid, role, ['r'] * nreads, rds, [], [], wbs=wbs, max_=None, mms=mms, mfs=mfs, au=au, rbs=rbs, pre=pre)
+
+
+def single_frame_alphabet(role):
+    """every opcode 0..15 x FIN x size {0, 1, 125, 126} x rsv {0, 4} x mask right/wrong: one frame"""
+    out = []
+    for opc in range(16):
+        for fin in (True, False):
+            for n in (0, 1, 125, 126):
+                for rsv in (0, 4):
+                    for wrong in (False, True):
+                        payload = (b'a' * n) if opc != 8 or n < 2 else close_payload(1000, b'a' * (n - 2))
+                        out.append(peer_frame(role, opc, payload, fin=fin, rsv=rsv, wrong_mask=wrong))
+    return out
